@@ -7,6 +7,7 @@ Under these hypotheses the attribute machinery of the engine model never ends in
 `internal` outcome.
 -/
 import KmipModel.Lemmas.NoInternal
+import KmipModel.Lemmas.EngineSpec
 namespace Kmip
 
 inductive Kind where
@@ -43,7 +44,49 @@ structure ValOk (c : Ctx) (name : String) (v : AVal) : Prop where
 theorem lookup_lit {k : Kind} {name lit : String} (h : name = lit) (hl : inspected.lookup lit = some k) :
     inspected.lookup name = some k := by rw [h]; exact hl
 
+theorem ValOk.enum_of {c : Ctx} {name : String} {v : AVal} (hv : ValOk c name v)
+    (h : inspected.lookup name = some .enum) : ∃ a, v = .enum a := by
+  have := hv.kind _ h
+  cases v <;> simp only [AVal.kind] at this <;> first | exact ⟨_, rfl⟩ | cases this
+
+theorem ValOk.int_of {c : Ctx} {name : String} {v : AVal} (hv : ValOk c name v)
+    (h : inspected.lookup name = some .int) : ∃ n, v = .int n ∧ 0 ≤ n := by
+  have hk := hv.kind _ h
+  have hn := hv.nonneg
+  cases v with
+  | int n => exact ⟨n, rfl, hn⟩
+  | _ => simp only [AVal.kind] at hk; cases hk
+
+theorem ValOk.text_of {c : Ctx} {name : String} {v : AVal} (hv : ValOk c name v)
+    (h : inspected.lookup name = some .text) : ∃ a, v = .text a := by
+  have := hv.kind _ h
+  cases v <;> simp only [AVal.kind] at this <;> first | exact ⟨_, rfl⟩ | cases this
+
+theorem ValOk.bool_of {c : Ctx} {name : String} {v : AVal} (hv : ValOk c name v)
+    (h : inspected.lookup name = some .bool) : ∃ a, v = .bool a := by
+  have := hv.kind _ h
+  cases v <;> simp only [AVal.kind] at this <;> first | exact ⟨_, rfl⟩ | cases this
+
+theorem ValOk.name_of {c : Ctx} {name : String} {v : AVal} (hv : ValOk c name v)
+    (h : inspected.lookup name = some .name) : ∃ a t, v = .name a t := by
+  have := hv.kind _ h
+  cases v <;> simp only [AVal.kind] at this <;> first | exact ⟨_, _, rfl⟩ | cases this
+
+theorem ValOk.appInfo_of {c : Ctx} {name : String} {v : AVal} (hv : ValOk c name v)
+    (h : inspected.lookup name = some .appInfo) : ∃ a t, v = .appInfo a t := by
+  have := hv.kind _ h
+  cases v <;> simp only [AVal.kind] at this <;> first | exact ⟨_, _, rfl⟩ | cases this
+
+theorem ValOk.date_of {c : Ctx} {name : String} {v : AVal} (hv : ValOk c name v)
+    (h : inspected.lookup name = some .date) : ∃ a, v = .date a := by
+  have := hv.kind _ h
+  cases v <;> simp only [AVal.kind] at this <;> first | exact ⟨_, rfl⟩ | cases this
+
 /-! ### setters -/
+
+/-- close goals `NoInternal (nested ifs/matches ending in kerr / pure)`; `omega` refutes the negative-integer branches -/
+macro "ni_auto" : tactic =>
+  `(tactic| repeat' (first | exact NoInternal.kerr _ _ | exact NoInternal.pure _ | (exfalso; omega) | (exfalso; injections; omega) | split | dsimp only))
 
 theorem setSingle_noInternal {c : Ctx} {o : Obj} {name : String} {v : AVal} (hv : ValOk c name v)
     (hs : ∀ r, c.rule? name = some r → r.multivalued = false) (hk : c.Known name) :
@@ -51,67 +94,495 @@ theorem setSingle_noInternal {c : Ctx} {o : Obj} {name : String} {v : AVal} (hv 
   unfold setSingle
   split
   · rename_i hn
-    have hkind := hv.kind .enum (lookup_lit (by simpa using hn) (by decide))
-    cases v <;> simp only [AVal.kind] at hkind <;> try cases hkind
-    split
-    · exact NoInternal.kerr _ _
-    · dsimp only; split
-      · split <;> first | exact NoInternal.kerr _ _ | exact NoInternal.pure _
-      · exact NoInternal.pure _
+    obtain ⟨a, rfl⟩ := hv.enum_of (lookup_lit (by simpa using hn) (by decide))
+    ni_auto
   · split
     · rename_i hn
-      have hkind := hv.kind .int (lookup_lit (by simpa using hn) (by decide))
-      have hnn := hv.nonneg
-      cases v <;> simp only [AVal.kind] at hkind <;> try cases hkind
-      rename_i n
-      simp only [AVal.nonneg] at hnn
-      have hneg : ¬ (n < 0) := by omega
-      split
-      · exact NoInternal.kerr _ _
-      · dsimp only
-        split
-        · split
-          · split <;> first | exact NoInternal.kerr _ _ | exact NoInternal.pure _
-          · simp only [hneg, if_false]; exact NoInternal.pure _
-        · simp only [hneg, if_false]; exact NoInternal.pure _
+      obtain ⟨n, rfl, hnn⟩ := hv.int_of (lookup_lit (by simpa using hn) (by decide))
+      ni_auto
     · split
       · rename_i hn
-        have hkind := hv.kind .int (lookup_lit (by simpa using hn) (by decide))
-        have hnn := hv.nonneg
-        cases v <;> simp only [AVal.kind] at hkind <;> try cases hkind
-        rename_i n
-        simp only [AVal.nonneg] at hnn
-        have hneg : ¬ (n < 0) := by omega
-        split
-        · exact NoInternal.kerr _ _
-        · dsimp only
-          simp only [hneg, if_false]
-          split
-          · split <;> first | exact NoInternal.kerr _ _ | exact NoInternal.pure _
-          · exact NoInternal.pure _
+        obtain ⟨n, rfl, hnn⟩ := hv.int_of (lookup_lit (by simpa using hn) (by decide))
+        ni_auto
       · split
         · rename_i hn
-          have hkind := hv.kind .text (lookup_lit (by simpa using hn) (by decide))
-          cases v <;> simp only [AVal.kind] at hkind <;> try cases hkind
-          dsimp only
-          split
-          · split <;> first | exact NoInternal.kerr _ _ | exact NoInternal.pure _
-          · exact NoInternal.pure _
+          obtain ⟨a, rfl⟩ := hv.text_of (lookup_lit (by simpa using hn) (by decide))
+          ni_auto
         · split
           · rename_i hn
-            have hkind := hv.kind .bool (lookup_lit (by simpa using hn) (by decide))
-            cases v <;> simp only [AVal.kind] at hkind <;> try cases hkind
-            dsimp only
-            split
-            · split <;> first | exact NoInternal.kerr _ _ | exact NoInternal.pure _
-            · exact NoInternal.pure _
-          · -- any other single-valued attribute: unsupported, unless its value were a structure
-            split
+            obtain ⟨a, rfl⟩ := hv.bool_of (lookup_lit (by simpa using hn) (by decide))
+            ni_auto
+          · split
             · exfalso
               obtain ⟨r, hr⟩ := Option.isSome_iff_exists.mp hk
               have h1 := hv.struct rfl r hr
               have h2 := hs r hr
               rw [h1] at h2; cases h2
             · exact NoInternal.kerr _ _
+
+theorem lookup_mem_wt {α β} [BEq α] [LawfulBEq α] (l : List (α × β)) (k : α) (v : β)
+    (h : l.lookup k = some v) : (k, v) ∈ l := by
+  induction l with
+  | nil => simp at h
+  | cons p ps ih =>
+    obtain ⟨a, b⟩ := p
+    simp only [List.lookup] at h
+    split at h
+    · rename_i heq
+      simp only [beq_iff_eq] at heq
+      simp only [Option.some.injEq] at h
+      subst heq; subst h; exact List.mem_cons_self
+    · exact List.mem_cons_of_mem _ (ih h)
+
+theorem setMulti_noInternal {c : Ctx} {o : Obj} {name : String} {vs : List AVal}
+    (hv : ∀ v ∈ vs, ValOk c name v) : NoInternal (setMulti o name vs) := by
+  unfold setMulti
+  split
+  · rename_i hn
+    split
+    · ni_auto
+    · rename_i hneg
+      exfalso; apply hneg
+      rw [List.all_eq_true]; intro v hvm
+      obtain ⟨a, t, rfl⟩ := (hv v hvm).name_of (lookup_lit (by simpa using hn) (by decide))
+      rfl
+  · split
+    · rename_i hn
+      split
+      · exact NoInternal.pure _
+      · rename_i hneg
+        exfalso; apply hneg
+        rw [List.all_eq_true]; intro v hvm
+        obtain ⟨a, t, rfl⟩ := (hv v hvm).appInfo_of (lookup_lit (by simpa using hn) (by decide))
+        rfl
+    · split
+      · rename_i hn
+        split
+        · exact NoInternal.pure _
+        · rename_i hneg
+          exfalso; apply hneg
+          rw [List.all_eq_true]; intro v hvm
+          obtain ⟨a, rfl⟩ := (hv v hvm).text_of (lookup_lit (by simpa using hn) (by decide))
+          rfl
+      · exact NoInternal.kerr _ _
+
+/-- the multivalued flag of the rule table (`False` for unknown names) -/
+def Ctx.mv (c : Ctx) (name : String) : Bool :=
+  match c.rule? name with | some r => r.multivalued | none => false
+
+theorem isMultivalued_eq (c : Ctx) (name : String) : c.isMultivalued name = .ok (c.mv name) := rfl
+
+/-- the collected value(s) of one attribute name are well typed and have the shape the rule table says -/
+def ColOk (c : Ctx) (name : String) : Collected → Prop
+  | .single v => c.mv name = false ∧ ValOk c name v
+  | .multi vs => c.mv name = true ∧ ∀ v ∈ vs, ValOk c name v
+
+def DictOk (c : Ctx) (d : AttrDict) : Prop := ∀ kv ∈ d, c.Known kv.1 ∧ ColOk c kv.1 kv.2
+
+theorem mv_false_single {c : Ctx} {name : String} (h : c.mv name = false) :
+    ∀ r, c.rule? name = some r → r.multivalued = false := by
+  intro r hr; simp only [Ctx.mv, hr] at h; exact h
+
+theorem setAttr_noInternal {c : Ctx} {o : Obj} {name : String} {col : Collected}
+    (hk : c.Known name) (hc : ColOk c name col) : NoInternal (setAttr c o name col) := by
+  unfold setAttr
+  rw [isMultivalued_eq]
+  simp only [bind, Except.bind]
+  cases col with
+  | single v =>
+    obtain ⟨hm, hv⟩ := hc
+    rw [hm]; simp only [Bool.false_eq_true, if_false]
+    exact setSingle_noInternal hv (mv_false_single hm) hk
+  | multi vs =>
+    obtain ⟨hm, hv⟩ := hc
+    rw [hm]; simp only [if_true]
+    exact setMulti_noInternal hv
+
+/-- invariants and absence of internal errors along a monadic fold -/
+theorem foldlM_inv {α β} (f : β → α → R β) (P : β → Prop) (Q : α → Prop)
+    (hstep : ∀ b a b', P b → Q a → f b a = .ok b' → P b') :
+    ∀ (l : List α) (b b' : β), (∀ a ∈ l, Q a) → P b → l.foldlM f b = .ok b' → P b' := by
+  intro l
+  induction l with
+  | nil => intro b b' _ hp h; simp only [List.foldlM_nil, pure, Except.pure, Except.ok.injEq] at h; subst h; exact hp
+  | cons a as ih =>
+    intro b b' hq hp h
+    simp only [List.foldlM_cons, bind, Except.bind] at h
+    cases hfa : f b a with
+    | error e => rw [hfa] at h; cases h
+    | ok b1 =>
+      rw [hfa] at h
+      exact ih b1 b' (fun x hx => hq x (List.mem_cons_of_mem _ hx))
+        (hstep b a b1 hp (hq a List.mem_cons_self) hfa) h
+
+theorem foldlM_noInternal {α β} (f : β → α → R β) (P : β → Prop) (Q : α → Prop)
+    (hstep : ∀ b a b', P b → Q a → f b a = .ok b' → P b')
+    (hni : ∀ b a, P b → Q a → NoInternal (f b a)) :
+    ∀ (l : List α) (b : β), (∀ a ∈ l, Q a) → P b → NoInternal (l.foldlM f b) := by
+  intro l
+  induction l with
+  | nil => intro b _ _; exact NoInternal.pure _
+  | cons a as ih =>
+    intro b hq hp
+    rw [List.foldlM_cons]
+    refine NoInternal.bind (hni b a hp (hq a List.mem_cons_self)) (fun b1 hb1 => ?_)
+    exact ih b1 (fun x hx => hq x (List.mem_cons_of_mem _ hx)) (hstep b a b1 hp (hq a List.mem_cons_self) hb1)
+
+theorem setAttrs_noInternal {c : Ctx} {o : Obj} {d : AttrDict} (hd : DictOk c d) :
+    NoInternal (setAttrs c o d) := by
+  unfold setAttrs
+  refine foldlM_noInternal _ (fun _ => True) (fun kv : String × Collected => c.Known kv.1 ∧ ColOk c kv.1 kv.2)
+    (fun _ _ _ _ _ _ => trivial) ?_ d o hd trivial
+  intro b kv _ hkv
+  simp only [Ctx.isApplicable, bind, Except.bind, pure, Except.pure]
+  repeat' (first | exact setAttr_noInternal hkv.1 hkv.2 | exact NoInternal.kerr _ _ | split)
+
+/-! ### template processing -/
+
+def TemplateOk (c : Ctx) (t : Template) : Prop := ∀ a ∈ t.attrs, ValOk c a.name a.value
+
+def TemplateOk? (c : Ctx) : Option Template → Prop
+  | none => True
+  | some t => TemplateOk c t
+
+theorem DictOk.nil (c : Ctx) : DictOk c [] := by intro kv h; cases h
+
+theorem DictOk.set {c : Ctx} {d : AttrDict} {name : String} {col : Collected}
+    (hd : DictOk c d) (hk : c.Known name) (hc : ColOk c name col) : DictOk c (d.set name col) := by
+  unfold AttrDict.set
+  split
+  · intro kv hkv
+    simp only [List.mem_map] at hkv
+    obtain ⟨kv0, hm, rfl⟩ := hkv
+    split
+    · exact ⟨hk, hc⟩
+    · exact hd kv0 hm
+  · intro kv hkv
+    simp only [List.mem_append, List.mem_singleton] at hkv
+    rcases hkv with h | rfl
+    · exact hd kv h
+    · exact ⟨hk, hc⟩
+
+theorem DictOk.erase {c : Ctx} {d : AttrDict} (hd : DictOk c d) (name : String) : DictOk c (d.erase name) := by
+  intro kv hkv
+  simp only [AttrDict.erase, List.mem_filter] at hkv
+  exact hd kv hkv.1
+
+theorem DictOk.get {c : Ctx} {d : AttrDict} {name : String} {col : Collected}
+    (hd : DictOk c d) (h : d.get name = some col) : c.Known name ∧ ColOk c name col :=
+  hd (name, col) (lookup_mem_wt d name col h)
+
+theorem processTemplateStep_ok {c : Ctx} {ver : Nat} {d d' : AttrDict} {a : TAttr}
+    (hd : DictOk c d) (ha : ValOk c a.name a.value) (h : processTemplateStep c ver d a = .ok d') :
+    DictOk c d' := by
+  unfold processTemplateStep at h
+  simp only [isMultivalued_eq, bind, Except.bind, pure, Except.pure] at h
+  by_cases hsup : c.isSupported ver a.name = true
+  · have hk : c.Known a.name := isSupported_known hsup
+    simp only [hsup, Bool.not_true, Bool.false_eq_true, if_false] at h
+    cases hmv : c.mv a.name with
+    | true =>
+      simp only [hmv, if_true] at h
+      have fin : ∀ vs, (∀ v ∈ vs, ValOk c a.name v) →
+          DictOk c (d.set a.name (.multi (vs ++ [a.value]))) := by
+        intro vs hvs
+        refine hd.set hk ⟨hmv, ?_⟩
+        intro v hv
+        simp only [List.mem_append, List.mem_singleton] at hv
+        rcases hv with hv | rfl
+        · exact hvs v hv
+        · exact ha
+      cases hget : d.get a.name with
+      | none =>
+        simp only [hget] at h
+        split at h
+        · cases h
+        · simp only [Except.ok.injEq] at h; subst h; exact fin [] (fun _ hv => by cases hv)
+      | some col =>
+        cases col with
+        | single v =>
+          simp only [hget] at h
+          split at h
+          · cases h
+          · simp only [Except.ok.injEq] at h; subst h; exact fin [] (fun _ hv => by cases hv)
+        | multi vs =>
+          simp only [hget] at h
+          split at h
+          · cases h
+          · simp only [Except.ok.injEq] at h; subst h; exact fin vs (hd.get hget).2.2
+    | false =>
+      simp only [hmv, Bool.false_eq_true, if_false] at h
+      split at h
+      · split at h
+        · cases h
+        · split at h
+          · cases h
+          · simp only [Except.ok.injEq] at h; subst h; exact hd.set hk ⟨hmv, ha⟩
+      · split at h
+        · cases h
+        · simp only [Except.ok.injEq] at h; subst h; exact hd.set hk ⟨hmv, ha⟩
+  · simp only [hsup, Bool.not_false, if_true] at h
+    cases h
+
+theorem processTemplateStep_noInternal (c : Ctx) (ver : Nat) (d : AttrDict) (a : TAttr) :
+    NoInternal (processTemplateStep c ver d a) := by
+  unfold processTemplateStep
+  simp only [isMultivalued_eq, bind, Except.bind, pure, Except.pure]
+  repeat' (first | exact NoInternal.kerr _ _ | exact NoInternal.ok _ | split)
+
+theorem processTemplate_ok {c : Ctx} {ver : Nat} {t : Template} {d : AttrDict}
+    (ht : TemplateOk c t) (h : processTemplate c ver t = .ok d) : DictOk c d := by
+  unfold processTemplate at h
+  split at h
+  · cases h
+  · exact foldlM_inv _ (DictOk c) (fun a : TAttr => ValOk c a.name a.value)
+      (fun b a b' hb ha hs => processTemplateStep_ok hb ha hs) t.attrs [] d ht (DictOk.nil c) h
+
+theorem processTemplate_noInternal {c : Ctx} {ver : Nat} {t : Template} :
+    NoInternal (processTemplate c ver t) := by
+  unfold processTemplate
+  split
+  · exact NoInternal.kerr _ _
+  · exact foldlM_noInternal _ (fun _ => True) (fun _ => True) (fun _ _ _ _ _ _ => trivial)
+      (fun b a _ _ => processTemplateStep_noInternal c ver b a) t.attrs [] (fun _ _ => trivial) trivial
+
+theorem processTemplate?_ok {c : Ctx} {ver : Nat} {t : Option Template} {d : AttrDict}
+    (ht : TemplateOk? c t) (h : processTemplate? c ver t = .ok d) : DictOk c d := by
+  cases t with
+  | none => simp only [processTemplate?, pure, Except.pure, Except.ok.injEq] at h; subst h; exact DictOk.nil c
+  | some t => exact processTemplate_ok ht h
+
+theorem processTemplate?_noInternal {c : Ctx} {ver : Nat} {t : Option Template} :
+    NoInternal (processTemplate? c ver t) := by
+  cases t with
+  | none => exact NoInternal.pure _
+  | some t => exact processTemplate_noInternal
+
+/-! ### what the handlers read from the processed template -/
+
+/-- facts about the rule table the handlers rely on (proved for the generated table by evaluation) -/
+structure TableFacts (c : Ctx) : Prop where
+  alg_single : c.mv "Cryptographic Algorithm" = false
+  len_single : c.mv "Cryptographic Length" = false
+
+theorem single_of_colOk {c : Ctx} {name : String} {col : Collected} (hs : c.mv name = false)
+    (hc : ColOk c name col) : ∃ v, col = .single v ∧ ValOk c name v := by
+  cases col with
+  | single v => exact ⟨v, rfl, hc.2⟩
+  | multi vs => have := hc.1; rw [hs] at this; cases this
+
+theorem reqAlg_noInternal {c : Ctx} {d : AttrDict} (msg : String) (hd : DictOk c d)
+    (hs : c.mv "Cryptographic Algorithm" = false) : NoInternal (reqAlg d msg) := by
+  unfold reqAlg
+  cases hget : d.get "Cryptographic Algorithm" with
+  | none => exact NoInternal.kerr _ _
+  | some col =>
+    obtain ⟨v, rfl, hv⟩ := single_of_colOk hs (hd.get hget).2
+    obtain ⟨a, rfl⟩ := hv.enum_of (by decide)
+    exact NoInternal.pure _
+
+theorem reqLen_noInternal {c : Ctx} {d : AttrDict} (msg : String) (hd : DictOk c d)
+    (hs : c.mv "Cryptographic Length" = false) : NoInternal (reqLen d msg) := by
+  unfold reqLen
+  cases hget : d.get "Cryptographic Length" with
+  | none => exact NoInternal.kerr _ _
+  | some col =>
+    obtain ⟨v, rfl, hv⟩ := single_of_colOk hs (hd.get hget).2
+    obtain ⟨n, rfl, hn⟩ := hv.int_of (by decide)
+    have : ¬ n < 0 := by omega
+    simp only [this, if_false]
+    exact NoInternal.pure _
+
+theorem reqMask_noInternal (d : AttrDict) (msg : String) : NoInternal (reqMask d msg) := by
+  unfold reqMask; split
+  · exact NoInternal.kerr _ _
+  · exact NoInternal.pure _
+
+theorem deriveLen_noInternal {c : Ctx} {d : AttrDict} (hd : DictOk c d)
+    (hs : c.mv "Cryptographic Length" = false) : NoInternal (deriveLen d) := by
+  unfold deriveLen
+  cases hget : d.get "Cryptographic Length" with
+  | none => exact NoInternal.kerr _ _
+  | some col =>
+    obtain ⟨v, rfl, hv⟩ := single_of_colOk hs (hd.get hget).2
+    obtain ⟨n, rfl, hn⟩ := hv.int_of (by decide)
+    have : ¬ n < 0 := by omega
+    simp only [this, if_false]
+    split
+    · exact NoInternal.pure _
+    · exact NoInternal.kerr _ _
+
+theorem deriveAlg_noInternal {c : Ctx} {d : AttrDict} (otype : Nat) (hd : DictOk c d)
+    (hs : c.mv "Cryptographic Algorithm" = false) : NoInternal (deriveAlg otype d) := by
+  unfold deriveAlg
+  split
+  · cases hget : d.get "Cryptographic Algorithm" with
+    | none => exact NoInternal.kerr _ _
+    | some col =>
+      obtain ⟨v, rfl, hv⟩ := single_of_colOk hs (hd.get hget).2
+      obtain ⟨a, rfl⟩ := hv.enum_of (by decide)
+      exact NoInternal.pure _
+  · exact NoInternal.pure _
+
+/-! ### stored objects -/
+
+/-- every stored object other than an opaque object carries a usage mask and a state
+(the shape `newObj` gives; preserved by every operation, see `Lemmas/StoreWT.lean`) -/
+def ObjWT (o : Obj) : Prop := o.otype ≠ OT.opaqueData → o.mask.isSome = true ∧ o.state.isSome = true
+
+def StoreWT (s : Store) : Prop := ∀ o ∈ s.objs, ObjWT o
+
+/-! ### the cryptography backend as an oracle -/
+
+/-- the backend answered with bytes or with a KMIP error (it did not raise anything else) -/
+def Crypto.Bytes : Crypto → Prop
+  | .ok _ => True
+  | .kmipError _ => True
+  | _ => False
+
+def Crypto.Pair : Crypto → Prop
+  | .ok2 .. => True
+  | .kmipError _ => True
+  | _ => False
+
+theorem cryptoToken_ni {cr : Crypto} (h : cr.Bytes) : NoInternal (cryptoToken cr) := by
+  unfold cryptoToken
+  cases cr <;> simp only [Crypto.Bytes] at h <;> first | exact NoInternal.pure _ | exact NoInternal.kerr _ _
+
+theorem cryptoPair_ni {cr : Crypto} (h : cr.Pair) : NoInternal (cryptoPair cr) := by
+  unfold cryptoPair
+  cases cr <;> simp only [Crypto.Pair] at h <;> first | exact NoInternal.pure _ | exact NoInternal.kerr _ _
+
+/-- `create_symmetric_key(alg, length)` returns `length / 8` bytes -/
+def Crypto.FitsCreate (c : Ctx) (ver : Nat) (tmpl : Option Template) (cr : Crypto) : Prop :=
+  cr.Bytes ∧ ∀ token d len msg, cr = .ok token → processTemplate? c ver tmpl = .ok d → reqLen d msg = .ok len →
+    hexBytes token * 8 = len
+
+/-! ### Create, CreateKeyPair, Register -/
+
+theorem opCreate_noInternal {c : Ctx} {e : Engine} {otype : Nat} {tmpl : Option Template} {cr : Crypto}
+    (hf : TableFacts c) (ht : TemplateOk? c tmpl) (hcr : cr.FitsCreate c e.version tmpl) :
+    NoInternal (opCreate c e otype tmpl cr) := by
+  unfold opCreate
+  split
+  · exact NoInternal.kerr _ _
+  refine NoInternal.bind processTemplate?_noInternal (fun d hd => ?_)
+  have hdo := processTemplate?_ok ht hd
+  refine NoInternal.bind (reqAlg_noInternal _ hdo hf.alg_single) (fun alg _ => ?_)
+  refine NoInternal.bind (reqLen_noInternal _ hdo hf.len_single) (fun len hlen => ?_)
+  refine NoInternal.bind (reqMask_noInternal _ _) (fun _ _ => ?_)
+  refine NoInternal.bind (cryptoToken_ni hcr.1) (fun token htok => ?_)
+  have hcr' : cr = .ok token := by
+    unfold cryptoToken at htok
+    cases cr <;> simp [cryptoErr, pure, Except.pure, kerr, ierr] at htok
+    subst htok; rfl
+  have hfit := hcr.2 token d len _ hcr' hd hlen
+  split
+  · rename_i hne; exfalso; simp [hfit] at hne
+  · exact NoInternal.bind (setAttrs_noInternal hdo) (fun o _ => NoInternal.pure _)
+
+theorem mergeCommon_ok {c : Ctx} {common specific : AttrDict} (hc : DictOk c common) (hs : DictOk c specific) :
+    DictOk c (mergeCommon common specific) := by
+  unfold mergeCommon
+  induction common generalizing specific with
+  | nil => exact hs
+  | cons kv rest ih =>
+    simp only [List.foldl_cons]
+    refine ih (fun x hx => hc x (List.mem_cons_of_mem _ hx)) ?_
+    split
+    · exact hs
+    · intro x hx
+      simp only [List.mem_append, List.mem_singleton] at hx
+      rcases hx with hx | rfl
+      · exact hs x hx
+      · exact hc _ List.mem_cons_self
+
+theorem requireKeyAttrs_noInternal {c : Ctx} {d : AttrDict} (which : String) (hf : TableFacts c) (hd : DictOk c d) :
+    NoInternal (requireKeyAttrs d which) := by
+  unfold requireKeyAttrs
+  refine NoInternal.bind (reqAlg_noInternal _ hd hf.alg_single) (fun alg _ => ?_)
+  refine NoInternal.bind (reqLen_noInternal _ hd hf.len_single) (fun len hlen => ?_)
+  exact NoInternal.bind (reqMask_noInternal _ _) (fun _ _ => NoInternal.pure _)
+
+theorem opCreateKeyPair_noInternal {c : Ctx} {e : Engine} {common priv pub : Option Template} {cr : Crypto}
+    (hf : TableFacts c) (hc : TemplateOk? c common) (hpr : TemplateOk? c priv) (hpu : TemplateOk? c pub)
+    (hcr : cr.Pair) : NoInternal (opCreateKeyPair c e common priv pub cr) := by
+  unfold opCreateKeyPair
+  refine NoInternal.bind processTemplate?_noInternal (fun dpub hdpub => ?_)
+  refine NoInternal.bind processTemplate?_noInternal (fun dpriv hdpriv => ?_)
+  refine NoInternal.bind processTemplate?_noInternal (fun dcom hdcom => ?_)
+  have h1 := mergeCommon_ok (processTemplate?_ok hc hdcom) (processTemplate?_ok hpu hdpub)
+  have h2 := mergeCommon_ok (processTemplate?_ok hc hdcom) (processTemplate?_ok hpr hdpriv)
+  refine NoInternal.bind (requireKeyAttrs_noInternal _ hf h1) (fun pk _ => ?_)
+  refine NoInternal.bind (requireKeyAttrs_noInternal _ hf h2) (fun sk _ => ?_)
+  split
+  · exact NoInternal.kerr _ _
+  split
+  · exact NoInternal.kerr _ _
+  refine NoInternal.bind (cryptoPair_ni hcr) (fun t _ => ?_)
+  refine NoInternal.bind (setAttrs_noInternal h1) (fun po _ => ?_)
+  exact NoInternal.bind (setAttrs_noInternal h2) (fun so _ => NoInternal.pure _)
+
+theorem opRegister_noInternal {c : Ctx} {e : Engine} {otype : Nat} {tmpl : Option Template} {obj : Option RegObj}
+    (ht : TemplateOk? c tmpl) : NoInternal (opRegister c e otype tmpl obj) := by
+  unfold opRegister
+  split
+  · exact NoInternal.kerr _ _
+  split
+  · exact NoInternal.kerr _ _
+  refine NoInternal.bind processTemplate?_noInternal (fun d hd => ?_)
+  exact NoInternal.bind (setAttrs_noInternal (processTemplate?_ok ht hd)) (fun o _ => NoInternal.pure _)
+
+/-! ### DeriveKey -/
+
+theorem deriveBases_noInternal {c : Ctx} {e : Engine} (hs : StoreWT e.store) (uids : List String) :
+    NoInternal (deriveBases c e uids) := by
+  induction uids with
+  | nil => exact NoInternal.pure _
+  | cons u us ih =>
+    unfold deriveBases
+    refine NoInternal.bind (getWithAccess_noInternal _ _ _ _) (fun o ho => ?_)
+    have hmem := (getWithAccess_ok ho).2.1
+    split
+    · exact NoInternal.kerr _ _
+    rename_i hder
+    have hno : o.otype ≠ OT.opaqueData := by
+      intro heq; rw [heq] at hder; simp [derivable, OT.opaqueData, OT.secretData, OT.symmetricKey, OT.publicKey, OT.privateKey] at hder
+    have := (hs o hmem hno).1
+    split
+    · rename_i hm; rw [hm] at this; cases this
+    · split
+      · exact NoInternal.kerr _ _
+      · exact NoInternal.bind ih (fun _ _ => NoInternal.pure _)
+
+/-- the derivation backend answered with bytes or a KMIP error -/
+theorem opDeriveKey_noInternal {c : Ctx} {e : Engine} {otype : Nat} {uids : List String} {tmpl : Option Template}
+    {cr : Crypto} (hf : TableFacts c) (hs : StoreWT e.store) (ht : TemplateOk? c tmpl) (hu : uids ≠ [])
+    (hcr : cr.Bytes) : NoInternal (opDeriveKey c e otype uids tmpl cr) := by
+  unfold opDeriveKey
+  refine NoInternal.bind processTemplate?_noInternal (fun d hd => ?_)
+  have hdo := processTemplate?_ok ht hd
+  split
+  · exact NoInternal.kerr _ _
+  refine NoInternal.bind (deriveBases_noInternal hs _) (fun bases hb => ?_)
+  split
+  · rename_i hemp
+    exfalso
+    cases uids with
+    | nil => exact hu rfl
+    | cons u us =>
+      unfold deriveBases at hb
+      simp only [bind, Except.bind] at hb
+      repeat (split at hb <;> try (first | cases hb | skip))
+      all_goals (first | (simp at hemp; done) | (simp only [pure, Except.pure, Except.ok.injEq] at hb; subst hb; simp at hemp))
+  refine NoInternal.bind (deriveLen_noInternal hdo hf.len_single) (fun bytes _ => ?_)
+  refine NoInternal.bind (deriveAlg_noInternal _ hdo hf.alg_single) (fun alg _ => ?_)
+  refine NoInternal.bind (cryptoToken_ni hcr) (fun token _ => ?_)
+  split
+  · exact NoInternal.kerr _ _
+  refine NoInternal.bind (setAttrs_noInternal ?_) (fun o _ => NoInternal.pure _)
+  split
+  · exact hdo.erase _
+  · exact hdo
 
 end Kmip
